@@ -112,8 +112,30 @@ def run(ctx):
                    fail=f"returned value reads packet bytes outside the signed range: {leaks}")
             ctx.sample({"return": show(ret), "signed": show(signed), "signature": show(sig), "path_facts": [show(f) for f in facts]})
         else:
-            ctx.ob("C03.b", FN, False, "operands are complementary slices of one packet term", func=FN, file=file, node=node,
+            # the same partition with a computed cut: signed = P[:s], signature = P[s:e] for one term s (e.g. s = max(L - 16, 0), e = L).
+            # Whatever s is, the two ranges cover P[:e] without gap or overlap; a signature slice that is not 16 bytes wide never equals
+            # the digest, so nothing is accepted that was not covered.
+            from ..facts import simplify
+            sg_, si_ = strip(simplify(signed, set(facts))), strip(simplify(sig, set(facts)))
+            sym = sg_[0] == "slice" and si_[0] == "slice" and strip(sg_[1]) == strip(si_[1]) and sg_[4] is None and si_[4] is None \
+                and sg_[2] in (None, ("const", 0)) and sg_[3] is not None and sg_[3] == si_[2]
+            ctx.ob("C03.b", FN, sym, "signed range P[:s] and signature range P[s:e] meet at one computed cut s", func=FN, file=file, node=node,
                    detail=detail, fail=f"signature comparison operands are not complementary slices of one packet: {detail}")
+            if sym:
+                cut, base_ = sg_[3], strip(sg_[1])
+                leaks = []
+                ret_s = simplify(ret, set(facts))
+                inner_ = {id(y) for t in reads_of(ret_s, root_of(base_)) for b_ in t[2:] for y in reads_of(b_, root_of(base_))} if True else set()
+                # (reads inside a bound - the declared length at [4:6] - choose the cut, as in the constant form; the bytes that flow into the
+                # plaintext are the outermost reads)
+                for t in [t for t in reads_of(ret_s, root_of(base_)) if id(t) not in inner_]:
+                    t2 = strip(simplify(t, set(facts)))
+                    inside = t2[0] == "slice" and strip(t2[1]) == base_ and t2[4] is None and (t2[2] is None or (is_const(t2[2]) and isinstance(t2[2][1], int) and t2[2][1] >= 0)) \
+                        and t2[3] == cut
+                    if not inside:
+                        leaks.append(show(t))
+                ctx.ob("C03.b", FN, not leaks, "returned plaintext is computed from bytes inside the signed range only", func=FN, file=file, node=node,
+                       detail={"returned": show(ret)}, fail=f"returned value reads packet bytes outside the signed range: {leaks}")
         # full width: the digest side is the whole call result (enforced by sig_check: operand *is* the call term),
         # and the other side is a whole slice (no further narrowing): g_hi is None and g_lo == -ds checked above.
 
